@@ -27,6 +27,13 @@ var (
 	loadOnce bool
 )
 
+// LoadReplay makes the nondet functions return the values of the given replay file.
+func LoadReplay(path string) {
+	loadOnce = false
+	os.Setenv("VERIF_REPLAY", path)
+	load()
+}
+
 func load() {
 	if loadOnce {
 		return
@@ -167,6 +174,7 @@ func Symbolic() bool { return false }
 // Run executes a harness natively and prints a report.
 func Run(name string, f func()) (failed []string) {
 	Failed, Reached = nil, nil
+	Shown = map[string]string{}
 	seen = map[string]int{}
 	func() {
 		defer func() {
@@ -199,3 +207,38 @@ func Seg(name string, max int) string {
 	Assume(s != "")
 	return s
 }
+
+// RunBatch replays every entry of the batch file named by VERIF_REPLAY_BATCH:
+// a JSON list of {"harness": name, "file": replay file}. Output is framed by
+// BEGIN-REPLAY / END-REPLAY lines so the driver can attribute results.
+func RunBatch(harnesses map[string]func()) {
+	p := os.Getenv("VERIF_REPLAY_BATCH")
+	if p == "" {
+		return
+	}
+	b, err := os.ReadFile(p)
+	if err != nil {
+		panic(err)
+	}
+	var batch []struct {
+		Harness string `json:"harness"`
+		File    string `json:"file"`
+	}
+	if err := json.Unmarshal(b, &batch); err != nil {
+		panic(err)
+	}
+	for i, e := range batch {
+		f, ok := harnesses[e.Harness]
+		fmt.Printf("BEGIN-REPLAY %d %s %s\n", i, e.Harness, e.File)
+		if !ok {
+			fmt.Printf("UNKNOWN-HARNESS %s\n", e.Harness)
+		} else {
+			LoadReplay(e.File)
+			Run(e.Harness, f)
+		}
+		fmt.Printf("END-REPLAY %d\n", i)
+	}
+}
+
+// Thorough reports whether the thorough tier was requested (VERIF_TIER=thorough).
+func Thorough() bool { return os.Getenv("VERIF_TIER") == "thorough" }
